@@ -137,6 +137,50 @@ def rule_init_coherence(ctx: Ctx, prog: Program) -> None:
     for a in init_analyses(prog):
         _init_coherence_one(ctx, prog, a)
     _sort_guard(ctx, prog)
+    _parallel_lists(ctx, prog)
+
+
+def _parallel_lists(ctx: Ctx, prog: Program) -> None:
+    """init() re-orders the constraints (sort by complexity).  Whatever it derives per constraint must come from the constraint tuple at
+    that position, or from arrays init itself built after the sort.  A list kept on the problem since posting time (one entry per
+    add_propagator call) is in posting order: read by position inside a loop over the sorted constraints it describes another constraint."""
+    m = prog.modules.get(f"{prog.package}.{PB_MOD}")
+    init = m.classes.get("Problem", {}).get("init") if m else None
+    if init is None:
+        raise AnalysisError("anchor function vanished: Problem.init")
+    sorts = any(isinstance(n, ast.Call) and isinstance(n.func, ast.Attribute) and n.func.attr == "sort" and ast.unparse(n.func.value) == "self.propagators"
+                for n in ast.walk(init.node))
+    sorts = sorts or any(isinstance(n, ast.Assign) and any(ast.unparse(t) == "self.propagators" for t in n.targets) for n in ast.walk(init.node))
+    if not sorts:
+        ctx.ok("R-INIT-COHERENCE", "init does not re-order the constraints", nontrivial=False)
+        return
+    derived = {t.attr for n in ast.walk(init.node) if isinstance(n, (ast.Assign, ast.AnnAssign))
+               for t in (n.targets if isinstance(n, ast.Assign) else [n.target])
+               for t in ([t] if isinstance(t, ast.Attribute) else [x for x in ast.walk(t) if isinstance(x, ast.Attribute)])
+               if isinstance(t.value, ast.Name) and t.value.id == "self"}
+    n_loops = 0
+    for loop in [n for n in ast.walk(init.node) if isinstance(n, ast.For)]:
+        it = ast.unparse(loop.iter)
+        if "self.propagators" not in it and "self.propagator_nb" not in it:
+            continue
+        n_loops += 1
+        idx = None
+        if isinstance(loop.target, ast.Tuple) and loop.target.elts and isinstance(loop.target.elts[0], ast.Name) and it.startswith("enumerate("):
+            idx = loop.target.elts[0].id
+        elif isinstance(loop.target, ast.Name) and it.startswith("range("):
+            idx = loop.target.id
+        if idx is None:
+            continue
+        for n in ast.walk(loop):
+            if isinstance(n, ast.Subscript) and isinstance(n.ctx, ast.Load) and isinstance(n.value, ast.Attribute) and isinstance(n.value.value, ast.Name) \
+                    and n.value.value.id == "self" and n.value.attr not in derived and n.value.attr != "propagators" \
+                    and any(isinstance(x, ast.Name) and x.id == idx for x in ast.walk(n.slice)):
+                ctx.violation("R-INIT-COHERENCE", init.path, "Problem.init", f"posting-order-list:{n.value.attr}", f"{init.path}:{n.lineno}",
+                              f"init() reads `{ast.unparse(n)}` by position inside a loop over the constraints it has just sorted by complexity; "
+                              f"self.{n.value.attr} is not rebuilt by init(), so it is in posting order and entry {idx} describes another constraint "
+                              "as soon as the sort moves anything (permuting the constraints of a model changes its solutions)")
+    if n_loops:
+        ctx.ok("R-INIT-COHERENCE", "per-constraint data read by position comes from arrays init() itself builds after the sort", sample={"loops": n_loops}, nontrivial=False)
 
 
 def _sort_guard(ctx: Ctx, prog: Program) -> None:
@@ -508,6 +552,7 @@ def rule_split(ctx: Ctx, prog: Program) -> None:
                    "consecutive parts must be adjacent (next minimum = this maximum + 1): otherwise parts overlap or leave a gap")
                 _v(ctx, fn, first_ok, "first part starts at the domain minimum", e, "the first part must start at the minimum of the split domain")
     ctx.floor("R-SPLIT:loops", n_loops, 1)
+    _copy_protocol(ctx, prog)
     # (vi) the parts cover the domain exactly: sizes are q + 1 for the first r parts and q for the others, q = s // k, r = s % k.
     # Lemma (arithmetic, proved once by hand): sum_{i<k} (q + [i < r]) = k*q + r = s for 0 <= r < k.  The rule recognises the two sizes and
     # the threshold of the conditional; an off-by-constant threshold is a definite violation, an unrecognised distribution is undecided.
@@ -569,6 +614,45 @@ def rule_split(ctx: Ctx, prog: Program) -> None:
                     break
     if not decided:
         ctx.undecided_site("R-SPLIT", "covers-domain", "the distribution of sizes over the parts is not of the recognised form q+[i<r]: 'the last part ends at the domain maximum' is not decided")
+
+
+COPY_HOOKS = ("__getstate__", "__deepcopy__", "__copy__", "__reduce__", "__reduce_ex__", "__getnewargs__", "__getnewargs_ex__")
+
+
+def _copy_protocol(ctx: Ctx, prog: Program) -> None:
+    """split() copies the problem with copy.deepcopy, which runs the copy / pickle hooks of the class *on the original*.  A hook that edits
+    the object's own attribute dictionary (`state = self.__dict__; state.pop(..)`) or assigns / deletes attributes strips the original while
+    it is being copied: 'splitting leaves the original problem unchanged' no longer holds."""
+    m = prog.modules.get(f"{prog.package}.{PB_MOD}")
+    hooks = [(n, f) for n, f in (m.classes.get("Problem", {}) if m else {}).items() if n in COPY_HOOKS]
+    if not hooks:
+        ctx.ok("R-SPLIT", "Problem defines no copy / pickle hook: deepcopy reads the original only", nontrivial=False)
+        return
+    for name, f in hooks:
+        aliases = {"self.__dict__", "vars(self)"}
+        for n in ast.walk(f.node):
+            if isinstance(n, ast.Assign) and len(n.targets) == 1 and isinstance(n.targets[0], ast.Name) and ast.unparse(n.value) in ("self.__dict__", "vars(self)"):
+                aliases.add(n.targets[0].id)
+        bad = None
+        for n in ast.walk(f.node):
+            if isinstance(n, ast.Call) and isinstance(n.func, ast.Attribute) and ast.unparse(n.func.value) in aliases \
+                    and n.func.attr in ("pop", "popitem", "clear", "update", "setdefault", "__setitem__", "__delitem__"):
+                bad = n
+            if isinstance(n, ast.Delete) and any(ast.unparse(t.value) in aliases for t in n.targets if isinstance(t, ast.Subscript)):
+                bad = n
+            if isinstance(n, ast.Delete) and any(isinstance(t, ast.Attribute) and ast.unparse(t.value) == "self" for t in n.targets):
+                bad = n
+            if isinstance(n, (ast.Assign, ast.AugAssign)):
+                for t in (n.targets if isinstance(n, ast.Assign) else [n.target]):
+                    if (isinstance(t, ast.Subscript) and ast.unparse(t.value) in aliases) or (isinstance(t, ast.Attribute) and ast.unparse(t.value) == "self"):
+                        bad = n
+        if bad is None:
+            ctx.ok("R-SPLIT", f"Problem.{name} does not modify the object it is asked to describe")
+        else:
+            ctx.violation("R-SPLIT", f.path, f"Problem.{name}", "original-untouched:copy-hook", f"{f.path}:{bad.lineno}",
+                          f"Problem.{name} is run by copy.deepcopy (hence by split) on the ORIGINAL problem and modifies it (`{ast.unparse(bad)[:60]}` acts on the "
+                          "object's own attribute dictionary): splitting strips the original of what the hook removes -- a solver built on it before the "
+                          "split fails afterwards")
 
 
 def _part_bounds(it, bp):
